@@ -3,27 +3,143 @@
 // Driver for C13: a trace is stored, returned and sampled as a whole.
 // The case handlers live in package trace (hooks/banyand/trace/zz_verif_c13*.go) because
 // they drive unexported engine code (fragment guard, drop set, merge chain, tsTable).
+//
+// Table-level cases are dominated by fsync-ing real part files, so the driver fans the input
+// out to a few worker processes (the same binary, VERIF_C13_WORKER=1, each one a plain
+// drv.Run loop with its own scratch directory) and prints the answers in input order.
+// Cases are independent: every case builds its own table in its own directory.
 package main
 
 import (
+	"bufio"
 	"fmt"
+	"io"
 	"os"
+	"os/exec"
 	"path/filepath"
+	"runtime"
+	"strconv"
+	"strings"
+	"sync"
 
 	"github.com/apache/skywalking-banyandb/banyand/internal/verifdrv/drv"
 	"github.com/apache/skywalking-banyandb/banyand/trace"
 )
 
-func main() {
+func scratchBase() string {
 	base := os.Getenv("VERIF_SCRATCH")
 	if base == "" {
 		base = "/verif/.scratch"
 	}
-	dir := filepath.Join(base, fmt.Sprintf("c13-%d", os.Getpid()))
+	return base
+}
+
+func worker() {
+	dir := filepath.Join(scratchBase(), fmt.Sprintf("c13-%d", os.Getpid()))
 	if err := os.MkdirAll(dir, 0o755); err != nil {
 		panic(err)
 	}
 	defer os.RemoveAll(dir)
 	trace.VerifC13SetScratch(dir)
 	drv.Run(trace.VerifC13)
+}
+
+// runChunk feeds lines to one worker process; if the worker dies the line it died on is
+// answered with "PANIC worker died" and a fresh worker takes the rest.
+func runChunk(self string, lines []string, out []string, idx []int) {
+	pos := 0
+	for pos < len(idx) {
+		cmd := exec.Command(self)
+		cmd.Env = append(os.Environ(), "VERIF_C13_WORKER=1")
+		cmd.Stderr = io.Discard
+		stdin, _ := cmd.StdinPipe()
+		stdout, _ := cmd.StdoutPipe()
+		if err := cmd.Start(); err != nil {
+			for ; pos < len(idx); pos++ {
+				out[idx[pos]] = "PANIC cannot start worker: " + err.Error()
+			}
+			return
+		}
+		go func(from int) {
+			w := bufio.NewWriter(stdin)
+			for i := from; i < len(idx); i++ {
+				fmt.Fprintln(w, lines[idx[i]])
+			}
+			w.Flush()
+			stdin.Close()
+		}(pos)
+		r := bufio.NewReaderSize(stdout, 1<<20)
+		for pos < len(idx) {
+			line, err := r.ReadString('\n')
+			if err != nil {
+				break
+			}
+			out[idx[pos]] = strings.TrimRight(line, "\r\n")
+			pos++
+		}
+		_ = cmd.Wait()
+		if pos < len(idx) {
+			out[idx[pos]] = "PANIC worker process died"
+			pos++
+		}
+	}
+}
+
+func main() {
+	if os.Getenv("VERIF_C13_WORKER") != "" {
+		worker()
+		return
+	}
+	var lines []string
+	in := bufio.NewReaderSize(os.Stdin, 1<<20)
+	for {
+		line, err := in.ReadString('\n')
+		if len(line) > 0 {
+			lines = append(lines, strings.TrimRight(line, "\r\n"))
+		}
+		if err != nil {
+			break
+		}
+	}
+	n := runtime.NumCPU() / 2
+	if v, err := strconv.Atoi(os.Getenv("VERIF_C13_WORKERS")); err == nil && v > 0 {
+		n = v
+	}
+	n = max(1, min(n, 8, (len(lines)+49)/50))
+	self, err := os.Executable()
+	if err != nil || n == 1 {
+		// small inputs (replays): run in-process
+		dir := filepath.Join(scratchBase(), fmt.Sprintf("c13-%d", os.Getpid()))
+		if err := os.MkdirAll(dir, 0o755); err != nil {
+			panic(err)
+		}
+		defer os.RemoveAll(dir)
+		trace.VerifC13SetScratch(dir)
+		w := bufio.NewWriter(os.Stdout)
+		defer w.Flush()
+		for _, l := range lines {
+			res := drv.Safe(func() string { return trace.VerifC13(strings.Fields(l)) })
+			fmt.Fprintln(w, strings.ReplaceAll(res, "\n", "\\n"))
+		}
+		return
+	}
+	out := make([]string, len(lines))
+	chunks := make([][]int, n)
+	for i := range lines {
+		chunks[i%n] = append(chunks[i%n], i)
+	}
+	var wg sync.WaitGroup
+	for _, idx := range chunks {
+		wg.Add(1)
+		go func(idx []int) {
+			defer wg.Done()
+			runChunk(self, lines, out, idx)
+		}(idx)
+	}
+	wg.Wait()
+	w := bufio.NewWriterSize(os.Stdout, 1<<20)
+	defer w.Flush()
+	for _, l := range out {
+		fmt.Fprintln(w, l)
+	}
 }
